@@ -583,7 +583,7 @@ void ExpressionBuilder::expr_dot(const char* id)
         } else {
             expr = expression_t::create_dot(expr, *i, position, type.get_sub(*i));
         }
-    } else if (type.is_process()) {
+    } else if (type.is_process() && expr.get_symbol() != symbol_t{}) {  // (`!P`, `-P`, `P'` keep P's type but name no process)
         symbol_t name = expr.get_symbol();
         auto* process = static_cast<instance_t*>(name.get_data());
         auto i = type.find_index_of(id);
